@@ -104,6 +104,10 @@ func (h *eventHeap) Pop() any {
 	return e
 }
 
+// eagerHorizon bounds how far in the simulated future an event may lie to be fired while tasks
+// are still runnable.
+const eagerHorizon = time.Second
+
 // Kernel holds all simulator state of one run.
 type Kernel struct {
 	validBuf  []int
@@ -201,7 +205,8 @@ func (k *Kernel) handle(t *task, r *Req) {
 	t.ops++
 	// (a final WaitGroup.Done is bookkeeping of a task whose work is over, like its exit)
 	// (... and a task parked in a channel operation that looks again is waiting, not working)
-	if k.afterRoot && r.Op != OpExit && r.Op != OpPoll && !(r.Op == OpWGAdd && r.A < 0) && t != k.root {
+	// (... nor is the sleep of a timer task of the time facade)
+	if k.afterRoot && r.Op != OpExit && r.Op != OpPoll && !(r.Op == OpWGAdd && r.A < 0) && !(r.Op == OpSleep && t.name == "timer") && t != k.root {
 		k.res.WorkAfterRoot++
 		if len(k.res.OpsAfterRoot) < 8 {
 			k.res.OpsAfterRoot = append(k.res.OpsAfterRoot, fmt.Sprintf("t%d(%s) %s", t.id, t.name, r.Op))
@@ -540,6 +545,11 @@ func (k *Kernel) schedule() *task {
 				}
 			}
 			eventV := len(k.tasks) + 1
+			// While tasks can run, the next timed event may overtake them only if it is near: a
+			// process that finishes, a timer that fires within a second of simulated time.
+			// Computation is not assumed to be arbitrarily slow: a timeout of minutes or hours
+			// expires only when every task is waiting.
+			eventNear := len(k.events) > 0 && k.events[0].at-k.now <= eagerHorizon
 			var v int
 			if cf, ok := k.src.(ChooserFrom); ok {
 				valid := k.validBuf[:0]
@@ -547,7 +557,7 @@ func (k *Kernel) schedule() *task {
 				for _, t := range run[1:] {
 					valid = append(valid, t.id)
 				}
-				if len(k.events) > 0 {
+				if eventNear {
 					valid = append(valid, eventV)
 				}
 				k.validBuf = valid
@@ -556,7 +566,7 @@ func (k *Kernel) schedule() *task {
 				v = k.src.Choose(label, len(k.tasks)+2)
 			}
 			switch {
-			case v == eventV && len(k.events) > 0:
+			case v == eventV && eventNear:
 				pick = len(run)
 			case v > 0 && v <= len(k.tasks):
 				for i, t := range run {
